@@ -420,6 +420,10 @@ def run(ctx):
         ('    z1 = spec.get_static_trap(zone_id="mem")\n    p2 = filled.fill(z1[0:2, 0:2], [(1, 0)])\n    v3 = grid.sub_grid(p2, [1], [0])\n    w4 = filled.fill(z1, [(0, 0)])\n'),
         ('    z1 = spec.get_static_trap(zone_id="aux")\n    p2 = filled.vacate(z1, [(0, 0), (1, 2)])\n    v3 = grid.sub_grid(p2, [0, 1], [0])\n    w4 = filled.get_parent(p2)\n'),
         ('    z1 = spec.get_static_trap(zone_id="mem")\n    p2 = filled.vacate(z1, [(1, 1)])\n    v3 = filled.get_parent(p2)\n    w4 = filled.shift(z1, 0.0, 0.0)\n'),
+        # views of views of the filled zone whose first selection does not start at 0 (the vacant trap (1, 1) of mem lies inside)
+        ('    z1 = spec.get_static_trap(zone_id="mem")\n    p2 = z1[1:, :]\n    v3 = p2[0:, 1:]\n    w4 = grid.sub_grid(p2, [0, 1], [1, 2])\n'),
+        ('    z1 = spec.get_static_trap(zone_id="mem")\n    p2 = grid.sub_grid(z1, [1, 2], [0, 1, 2])\n    v3 = p2[0:1, 0:2]\n    w4 = filled.get_parent(p2[0:1, 1:2])\n'),
+        ('    z1 = spec.get_static_trap(zone_id="mem")\n    p2 = z1[:, 1:]\n    v3 = p2[1:, :][0:1, 0:1]\n    w4 = filled.get_parent(v3)\n'),
     ]
     # loop-carried grids: the value before the loop lies outside every zone, the body overwrites it with a view (or the other way
     # round); the loop runs zero times for c = False
